@@ -29,8 +29,22 @@ class Seam:
         a = self.armed
         if a is not None and a[0] == name and a[1] == n:
             self.fired = True
-            raise InjectedFault(f"injected at {name}#{n}")
+            exc = FAULT_EXCEPTIONS[a[2] if len(a) > 2 and a[2] else "InjectedFault"]
+            raise exc(f"injected at {name}#{n}")
 
+
+# what a failing user callback may raise; TypeError matters because parglare
+# itself catches TypeError around recognizer calls (calling-convention probe)
+FAULT_EXCEPTIONS = {
+    "InjectedFault": InjectedFault,
+    "TypeError": TypeError,
+    "ValueError": ValueError,
+    "KeyError": KeyError,
+    "AttributeError": AttributeError,
+    "IndexError": IndexError,
+}
+FAULT_EXC_NAMES = ["InjectedFault", "InjectedFault", "TypeError", "TypeError", "ValueError",
+                   "KeyError", "AttributeError", "IndexError"]
 
 SEAM = Seam()
 SEAMS = ["recognizer", "ctr", "term_action", "reduce_action", "filter", "recovery"]
